@@ -7,7 +7,7 @@ EVIDENCE = dict(
     level="model_checking",
     rule="RVFormat!Write is the independent encoder (written from the format document and the YAML, code-only extensions "
          "named). For every generated project and synth (same generators as C01/C02, plus MetaModule- and Sampler-heavy "
-         "ones) the real bytes are TLV-split by the harness and TLC checks chunk by chunk bytes = Write(public state) - "
+         "ones, and synths wrapped around modules that are attached to a project) the real bytes are TLV-split by the harness and TLC checks chunk by chunk bytes = Write(public state) - "
          "every differing chunk is reported with its id, CHNM and module - and evaluates each structural rule separately "
          "(header first, PEND/SEND termination, SNAM 32 bytes, PDTA = lines*tracks*8, CVAL count, CMID 8 per value, CHNM "
          "< CHNK, record sizes). MC_RVFormat checks Struct(Write(s)) on the bounded model. non-trivial = at least 2 modules.",
@@ -31,7 +31,11 @@ def run(ctx):
         ctx.count_case((name, len(data), hash(data)), nontrivial=nm >= 2 or ev["obj"]["kind"] == "synth")
         ctx.cov["bytes_checked"] = ctx.cov.get("bytes_checked", 0) + len(data)
     for i in range(100 if q else 2000):
-        add("p%d" % i, gen.rand_project(rnd, spec, depth=rnd.choice([0, 1, 2])))
+        p = gen.rand_project(rnd, spec, depth=rnd.choice([0, 1, 2]))
+        add("p%d" % i, p)
+        real = [m for m in p.modules[1:] if m is not None]
+        if real and i % 4 == 0:      # a synth file written for a module that lives (linked) in a project
+            add("p%d.synth-of-attached" % i, api.Synth(rnd.choice(real)))
     for t in sorted(cl):
         for k in range(2 if q else 30):
             add("%s#%d" % (t, k), api.Synth(gen.rand_module(rnd, cl[t], spec, depth=1, in_project=False)))
